@@ -82,6 +82,7 @@ fn main() {
             c10::run("C11", seed, "witness", shard, None)
         }
         "C17" => c17::run(seed, &tier, shard),
+        "C18" => c18::run(seed, &tier, shard, nshards, atom.as_deref()),
         "C12" => {
             if shard == 0 {
                 witness::run_witnesses("C12");
